@@ -18,10 +18,13 @@ import (
 	"google.golang.org/genproto/googleapis/api/serviceconfig"
 	"google.golang.org/grpc"
 	"google.golang.org/grpc/metadata"
+	"google.golang.org/grpc/stats"
 	"google.golang.org/protobuf/encoding/protojson"
 	"google.golang.org/protobuf/proto"
+	"google.golang.org/protobuf/reflect/protodesc"
 	"google.golang.org/protobuf/reflect/protoreflect"
 	"google.golang.org/protobuf/reflect/protoregistry"
+	"google.golang.org/protobuf/types/descriptorpb"
 	"larking.io/larking"
 
 	"verif/internal/mon"
@@ -481,7 +484,17 @@ func buildDynamic(rules []RuleSpec, kind string) (*env, error) {
 	if err != nil {
 		return nil, fmt.Errorf("descriptor build: %w", err)
 	}
-	reg, err := vschema.Registry(fd)
+	regFD := fd
+	if kind == muxSkew {
+		// the mux gets a SECOND build of the same descriptors, from a types
+		// file whose revision declares the fields in another order and adds
+		// new ones in front; the handlers keep building their messages on the
+		// first build
+		if regFD, err = rebuildSkewed(f.Proto()); err != nil {
+			return nil, fmt.Errorf("skewed descriptor build: %w", err)
+		}
+	}
+	reg, err := vschema.Registry(regFD)
 	if err != nil {
 		return nil, err
 	}
@@ -574,8 +587,101 @@ var builtinTypes = []string{"application/json", "application/octet-stream", "app
 // built-in one).
 const muxReplaced = "replaced-codecs"
 
+// muxWithOptions: a mux built with StatsOption and pass-through unary /
+// stream interceptors (options must not change what the handler receives).
+// muxSkew: FilesOption registry holding a second, re-ordered build of the
+// descriptors.
+const (
+	muxWithOptions = "stats+interceptors"
+	muxSkew        = "skewed-registry"
+)
+
+type nopStats struct{}
+
+func (nopStats) TagRPC(ctx context.Context, _ *stats.RPCTagInfo) context.Context   { return ctx }
+func (nopStats) HandleRPC(context.Context, stats.RPCStats)                         {}
+func (nopStats) TagConn(ctx context.Context, _ *stats.ConnTagInfo) context.Context { return ctx }
+func (nopStats) HandleConn(context.Context, stats.ConnStats)                       {}
+
+type skewResolver struct{ types protoreflect.FileDescriptor }
+
+func (r skewResolver) FindFileByPath(p string) (protoreflect.FileDescriptor, error) {
+	if p == r.types.Path() {
+		return r.types, nil
+	}
+	return protoregistry.GlobalFiles.FindFileByPath(p)
+}
+
+func (r skewResolver) FindDescriptorByName(n protoreflect.FullName) (protoreflect.Descriptor, error) {
+	var find func(ms protoreflect.MessageDescriptors) protoreflect.Descriptor
+	find = func(ms protoreflect.MessageDescriptors) protoreflect.Descriptor {
+		for i := 0; i < ms.Len(); i++ {
+			m := ms.Get(i)
+			if m.FullName() == n {
+				return m
+			}
+			if d := find(m.Messages()); d != nil {
+				return d
+			}
+		}
+		return nil
+	}
+	if d := find(r.types.Messages()); d != nil {
+		return d, nil
+	}
+	for i := 0; i < r.types.Enums().Len(); i++ {
+		if e := r.types.Enums().Get(i); e.FullName() == n {
+			return e, nil
+		}
+	}
+	return protoregistry.GlobalFiles.FindDescriptorByName(n)
+}
+
+var (
+	skewOnce  sync.Once
+	skewTypes protoreflect.FileDescriptor
+	skewErr   error
+)
+
+// rebuildSkewed builds the service file a second time against a revision of
+// vf/types.proto in which every message declares its fields in reverse order
+// behind two added fields (numbers and names of the existing fields are
+// unchanged, so the revision is wire- and JSON-compatible).
+func rebuildSkewed(svc *descriptorpb.FileDescriptorProto) (protoreflect.FileDescriptor, error) {
+	skewOnce.Do(func() {
+		fdp := protodesc.ToFileDescriptorProto(vschema.TypesFile())
+		str, i32 := descriptorpb.FieldDescriptorProto_TYPE_STRING, descriptorpb.FieldDescriptorProto_TYPE_INT32
+		opt := descriptorpb.FieldDescriptorProto_LABEL_OPTIONAL
+		for _, m := range fdp.MessageType {
+			fs := m.Field
+			for i, j := 0, len(fs)-1; i < j; i, j = i+1, j-1 {
+				fs[i], fs[j] = fs[j], fs[i]
+			}
+			n1, n2 := "zz_added_s", "zz_added_n"
+			num1, num2 := int32(901), int32(902)
+			m.Field = append([]*descriptorpb.FieldDescriptorProto{
+				{Name: &n1, Number: &num1, Type: &str, Label: &opt}, {Name: &n2, Number: &num2, Type: &i32, Label: &opt}}, fs...)
+		}
+		skewTypes, skewErr = protodesc.NewFile(fdp, protoregistry.GlobalFiles)
+	})
+	if skewErr != nil {
+		return nil, skewErr
+	}
+	return protodesc.NewFile(svc, skewResolver{skewTypes})
+}
+
 func muxOptions(kind string) []larking.MuxOption {
 	switch kind {
+	case muxWithOptions:
+		return []larking.MuxOption{
+			larking.StatsOption(nopStats{}),
+			larking.UnaryServerInterceptorOption(func(ctx context.Context, req interface{}, _ *grpc.UnaryServerInfo, h grpc.UnaryHandler) (interface{}, error) {
+				return h(ctx, req)
+			}),
+			larking.StreamServerInterceptorOption(func(srv interface{}, ss grpc.ServerStream, _ *grpc.StreamServerInfo, h grpc.StreamHandler) error {
+				return h(srv, ss)
+			}),
+		}
 	case muxCustom:
 		return []larking.MuxOption{larking.CodecOption(ctAltJSON, altJSONCodec{}), larking.CodecOption(ctAltProto, altProtoCodec{})}
 	case muxReplaced:
